@@ -84,6 +84,8 @@ Variable fcfg : fields_cfg.
 Variable guard : bool.          (* insens_guard: non-ASCII i-literals are rejected *)
 Variable cfg_leftrec_clone : bool.  (* check_flags also demands Clone for @leftrec *)
 Variable cfg_pos_variants : bool.   (* check_position_variants is called *)
+Variable cfg_idents_checked : bool. (* Grammar::check_identifiers is called *)
+Variable cfg_cycles_checked : bool. (* Grammar::check_include_cycles is called *)
 Variable g : grammar.
 
 (* errors raised while generating the code of an expression: literals and
@@ -238,7 +240,9 @@ Inductive gres :=
 | GOk (ds : list decl)
 | GFail (rule_index : nat) (rule_name : name) (e : cerr)
 | GPanic (rule_index : nat) (p : cpanic)
-| GOverflow (rule_index : nat).
+| GOverflow (rule_index : nat)
+| GBadIdent (n : name)            (* check_identifiers: a name that is not a Rust identifier *)
+| GCycle.                         (* check_include_cycles *)
 
 Fixpoint compile_rules (s : csettings) (fuel : nat) (idx : nat) (rs : list grule) (acc : list decl) : gres :=
   match rs with
@@ -252,35 +256,51 @@ Fixpoint compile_rules (s : csettings) (fuel : nat) (idx : nat) (rs : list grule
     end
   end.
 
-Definition compile_f (s : csettings) (fuel : nat) : gres := compile_rules s fuel 0 g [].
-Definition compile (s : csettings) : gres := compile_f s (gf_fuel g).
+(* ---- the checks made before any code is generated ------------------------------ *)
+Fixpoint includes (e : expr) : list name :=
+  match e with
+  | EChoice l | ESeq l => flat_map includes l
+  | EGroup b | EOptional b | EClosure b _ | ENeg b | EPos b => includes b
+  | EInclude n => [n]
+  | _ => []
+  end.
 
-(* ---- identifiers ------------------------------------------------------------ *)
-(* format_ident!/Ident::new panic on a name that starts with a digit; safe_ident
-   turns the keywords of RUST_KEYWORDS into raw identifiers, which panics for
-   self, Self and super (they cannot be raw). *)
-Definition n_self : name := [115; 101; 108; 102]%N.
-Definition n_Self : name := [83; 101; 108; 102]%N.
-Definition n_super : name := [115; 117; 112; 101; 114]%N.
+(* the rules an include of n leads to (the first normal rule of that name is the one found) *)
+Definition inc_of (n : name) : list name :=
+  match find_rule g n with Some r => includes (r_def r) | None => [] end.
+
+(* length of the longest chain of includes that starts at n, cut off at k *)
+Fixpoint inc_depth (k : nat) (n : name) : nat :=
+  match k with
+  | O => 0
+  | S k' => fold_right (fun m a => Nat.max (S (inc_depth k' m)) a) 0 (inc_of n)
+  end.
+
+Definition rule_names : list name :=
+  flat_map (fun gr => match gr with GRule r => [r_name r] | _ => [] end) g.
+
+(* a chain of includes longer than the number of rules visits a rule twice: a cycle *)
+Definition has_cycle : bool :=
+  existsb (fun n => Nat.ltb (length g) (inc_depth (S (length g)) n)) rule_names.
+
+(* str::split("::") *)
+Fixpoint split_colons (n : name) (cur : name) : list name :=
+  match n with
+  | [] => [rev cur]
+  | a :: r =>
+    match r with
+    | b :: r' => if N.eqb a 58 && N.eqb b 58 then rev cur :: split_colons r' [] else split_colons r (a :: cur)
+    | [] => [rev (a :: cur)]
+    end
+  end.
 
 Definition is_digit (c : N) : bool := (N.leb 48 c && N.leb c 57)%bool.
-
 Definition ident_char (c : N) : bool :=
-  (is_digit c || (N.leb 65 c && N.leb c 90) || (N.leb 97 c && N.leb c 122) || N.eqb c 95)%bool.
+  (is_digit c || (N.leb 65 c && N.leb c 90) || (N.leb 97 c && N.leb c 122) || N.eqb c 95 || N.leb 128 c)%bool.
+(* what proc_macro2 lexes as one identifier (non-ASCII: taken as identifier characters) *)
+Definition ident_valid (n : name) : bool :=
+  match n with [] => false | c :: _ => negb (is_digit c) end && forallb ident_char n.
 
-(* a name the generator can turn into an identifier: [A-Za-z_][A-Za-z0-9_]*
-   (rule, field and type names always are, apart from a leading digit; the
-   parts of @check / @extern paths can be any text without '-', ')' and ':'),
-   and, unless safe_ident leaves them alone, not self / Self / super *)
-Definition ident_ok (raw_kw_guard : bool) (n : name) : bool :=
-  match n with
-  | [] => false
-  | c :: _ => negb (is_digit c)
-  end && forallb ident_char n &&
-  (raw_kw_guard || negb (name_eqb n n_self || name_eqb n n_Self || name_eqb n n_super)).
-
-(* every name the generator turns into an identifier with safe_ident, or puts at
-   the start of a formatted identifier *)
 Fixpoint expr_idents (e : expr) : list name :=
   match e with
   | EChoice l | ESeq l => flat_map expr_idents l
@@ -300,15 +320,37 @@ Definition grule_idents (r : grule) : list name :=
   | GExtern r => er_name r :: er_function r ++ match er_return r with Some p => p | None => [] end
   end.
 
+(* in the order check_identifiers visits them *)
+Definition checked_idents (s : csettings) : list name :=
+  flat_map grule_idents g ++ flat_map (fun d => split_colons d []) (cs_derives s).
+
+Definition compile_f (s : csettings) (fuel : nat) : gres :=
+  match (if cfg_idents_checked then find (fun n => negb (ident_valid n)) (checked_idents s) else None) with
+  | Some n => GBadIdent n
+  | None => if cfg_cycles_checked && has_cycle then GCycle else compile_rules s fuel 0 g []
+  end.
+Definition compile (s : csettings) : gres := compile_f s (gf_fuel g).
+
+(* ---- identifiers the checks do not cover ---------------------------------------- *)
+(* CodegenSettings::set_user_context_type builds identifiers when it is called (a
+   panic there is outside Grammar::generate_code); without check_identifiers every
+   name of the grammar and every derive can panic in format_ident!/Ident::new *)
+Definition n_self : name := [115; 101; 108; 102]%N.
+Definition n_Self : name := [83; 101; 108; 102]%N.
+Definition n_super : name := [115; 117; 112; 101; 114]%N.
+
+Definition ident_ok (raw_kw_guard : bool) (n : name) : bool :=
+  ident_valid n &&
+  (raw_kw_guard || negb (name_eqb n n_self || name_eqb n n_Self || name_eqb n n_super)).
+
 Definition all_idents (s : csettings) : list name :=
   flat_map grule_idents g ++ match cs_ctx s with Some p => p | None => [] end.
 
+(* panic class: false = some identifier construction can panic *)
 Definition idents_ok (raw_kw_guard : bool) (s : csettings) : bool :=
-  forallb (ident_ok raw_kw_guard) (all_idents s).
+  forallb (ident_ok raw_kw_guard) (if cfg_idents_checked then match cs_ctx s with Some p => p | None => [] end else all_idents s).
 
-(* Ident::new on a derive name: any identifier (keywords included), no paths *)
-Definition derive_ok (d : name) : bool :=
-  match d with [] => false | c :: _ => negb (is_digit c) && forallb ident_char d end.
-Definition derives_ok (s : csettings) : bool := forallb derive_ok (cs_derives s).
+Definition derive_ok (d : name) : bool := forallb ident_valid (if cfg_idents_checked then split_colons d [] else [d]) .
+Definition derives_ok (s : csettings) : bool := cfg_idents_checked || forallb derive_ok (cs_derives s).
 
 End Compile.
